@@ -168,12 +168,15 @@ def lin_doc(rng, npages, feat):
     d.trailer = {b"Root": cat}
     if "info" in feat:
         d.trailer[b"Info"] = d.add(D(Title=Str(b"t"), Producer=Str(b"verif")))
+    if "trailer-string" in feat:
+        # a direct string value in the trailer dictionary (as in qtest good9.pdf / bad37.pdf)
+        d.trailer[b"QTest"] = Str(b"potato" * rng.choice([1, 3]))
     return d
 
 
 FEATURES = ["shared", "private", "thumbs", "all-thumbs", "outlines", "use-outlines", "pagemode-other", "acroform", "threads", "viewerprefs",
             "openaction", "names", "metadata", "info", "two-level", "no-inherit", "inherit-res", "indirect-res", "multi-content", "annots",
-            "page-and-other", "shared-action"]
+            "page-and-other", "shared-action", "trailer-string"]
 
 
 def gen_inputs(rng, n, wd):
@@ -338,8 +341,16 @@ def lin_read(paths):
     return res
 
 
-def signature_of(err, rep, xref_stream):
+def trailer_has_direct_string(data):
+    """classic first-page trailer of the output holds a string value other than /ID"""
+    m = re.search(rb"trailer <<(.*?)/ID \[", data[:6000], re.S)
+    return bool(m and re.search(rb"/[A-Za-z0-9#]+ [(<](?!<)", m.group(1)))
+
+
+def signature_of(err, rep, xref_stream, encrypted=False, data=b""):
     c, a, b = err
+    if c == 1 and encrypted and not xref_stream and trailer_has_direct_string(data):
+        return "lin:encrypt-trailer-string-damaged"
     if c == 10 and xref_stream and a == b + 1:
         return "lin:T-xref-stream-minus-1"
     return "lin:clause-%d" % c
@@ -475,7 +486,26 @@ def build_jobs(chk, wd):
     cfgs = all_configs()
     base = [("none", "disable", []), ("none", "generate", []), ("none", "preserve", ["--compress-streams=n"])]
     jobs = []
+    # probes of the recorded findings: re-observed (or seen to be gone) on every run
+    import random as _random
+    probes = [("probe-trailer-string", 2, {"trailer-string"}, [("aes256", "disable", []), ("rc4-128", "preserve", []), ("none", "disable", [])]),
+              ("probe-page-and-doclevel", 3, {"page-and-other"}, [("none", "disable", [])]),
+              ("probe-first-page-and-outlines", 2, {"outlines", "shared-action"}, [("none", "disable", [])]),
+              ("probe-outlines-objstm", 3, {"outlines", "shared"}, [("none", "generate", [])])]
+    for name, np_, feat, pcfgs in probes:
+        d = lin_doc(_random.Random(name), np_, feat)
+        p = os.path.join(wd, name + ".pdf")
+        open(p, "wb").write(pdfgen.write_classic(d)[0])
+        inp = {"name": name, "path": p, "kind": "generated", "npages": np_, "features": sorted(feat), "id": "none"}
+        inputs.append(inp)
+        for c in pcfgs:
+            jobs.append((inp, c))
+    g9 = os.path.join(filecheck.CORPUS_DIR, "good9.pdf")
+    if os.path.exists(g9):
+        jobs.append(({"name": "good9.pdf", "path": g9, "kind": "corpus", "npages": None, "features": [], "id": "?"}, ("aes128", "disable", [])))
     for inp in inputs:
+        if inp["name"].startswith("probe-"):
+            continue
         if quick:
             use = list(base[:2 if inp["kind"] == "corpus" else 3]) + rng.sample(cfgs, 1 if inp["kind"] == "corpus" else 3)
         else:
@@ -557,13 +587,15 @@ def part_files(chk, runner):
             clauses_seen[c] = clauses_seen.get(c, 0) + 1
             chk.violation(dict(case, kind="property-fails-on-implementation", part="annex-f", clause=c, why=CLAUSE.get(c, "clause %s" % c),
                                measured_or_expected=a, stated_or_found=b, parameters=dict(zip(["L", "H0", "H1", "O", "E", "N", "T"], rep.get("params", []))),
-                               raw=rep.get("raw")), signature=signature_of(e, rep, xref_stream))
+                               raw=rep.get("raw")), signature=signature_of(e, rep, xref_stream, cfg[0] != "none", data))
         # --check-linearization accepts the file without warning
         c_rc, c_so, c_se = r1
         if c_rc != 0 or b"no linearization errors" not in c_so or b"WARNING" in c_se:
             if not (inp["kind"] == "corpus" and rc == 3 and c_rc == 3 and b"linearization" not in c_se.lower()):
                 chk.violation(dict(case, kind="property-fails-on-implementation", part="check-linearization", why="qpdf --check-linearization does not accept the file silently",
-                                   check_exit=c_rc, stdout=c_so.decode("latin-1")[-300:], stderr=c_se.decode("latin-1")[-400:]), signature="lin:check-linearization")
+                                   check_exit=c_rc, stdout=c_so.decode("latin-1")[-300:], stderr=c_se.decode("latin-1")[-400:]),
+                              signature=("lin:encrypt-trailer-string-damaged" if cfg[0] != "none" and not xref_stream and trailer_has_direct_string(data) and rep["errors"] and rep["errors"][0][0] == 1
+                                         else "lin:check-linearization"))
         if cfg[0] != "none":
             n_enc += 1
             continue
@@ -625,5 +657,23 @@ def run(chk):
 
 
 def replay(chk, rep):
-    print(json.dumps(rep, indent=1)[:4000])
-    return 0
+    """re-run the recorded case: the qpdf command line on the recorded input, then the Annex F checker and qpdf's own"""
+    print(json.dumps(rep, indent=1)[:3000])
+    argv = rep.get("argv")
+    if not argv or not rep.get("input") or not os.path.exists(rep["input"]):
+        print("replay: nothing to re-run (no argv / input file is gone; generated inputs live in _build/work/C07 of the run that reported them)")
+        return 0
+    wd = os.path.join(common.BUILD, "work", "C07-replay")
+    os.makedirs(wd, exist_ok=True)
+    out = os.path.join(wd, "replay-out.pdf")
+    args = [a for a in argv[1:-1] if not a.startswith("--linearize-pass1=")] + [out]
+    rc, so, se = common.run_qpdf(args)
+    print("qpdf exit", rc, se.decode("latin-1")[-300:])
+    if rc not in (0, 3) or not os.path.exists(out):
+        return 1
+    r = lin_read([out])[0]
+    print("Annex F checker:", [(e, CLAUSE.get(e[0], "?")) for e in r["errors"]] or "accepts")
+    pw = ["--password=o"] if "--encrypt" in argv else []
+    c = common.run_qpdf(pw + ["--check-linearization", out])
+    print("qpdf --check-linearization:", c[0], c[1].decode("latin-1")[-200:], c[2].decode("latin-1")[-300:])
+    return 1 if r["errors"] else 0
